@@ -240,6 +240,27 @@ def specRelay (flash : List Msg) (mode : RelayMode) (o : ObsRelay) (scriptKeys :
           else if o.keyed4 ≠ expectedKeyed scriptKeys [] then some "keyed-readers"
           else none
 
+/-- one request of an issuing history: did it complete the redirect, status, issued value -/
+structure ObsIssue where
+  completes : Bool
+  status : Nat
+  issued : Option Bytes
+
+/-- History-free: whatever earlier requests of the same app attached (and never sent), the cookie a
+    request issues decodes to exactly ITS OWN expected messages; a request that does not complete a
+    redirect issues nothing. -/
+def specIssue (flash old : List Msg) (o : ObsIssue) : Option String :=
+  let expected := flash ++ old
+  if !o.completes then
+    if o.issued.isSome then some "no-redirect-no-cookie" else none
+  else if o.status ≠ 302 then some "redirected"
+  else if expected = [] then
+    if o.issued.isSome then some "no-messages-no-cookie" else none
+  else
+    match o.issued with
+    | none => some "issued"
+    | some v => if (parse v).map renderSeen ≠ some (renderSeen expected) then some "encode-faithful" else none
+
 /-- one request of a decode history -/
 structure ObsStep where
   status : Nat
